@@ -380,6 +380,20 @@ func b2u(b bool) uint64 {
 var ufImpl = map[string]func(a []uint64) uint64{
 	"fnv64":  func(a []uint64) uint64 { return (a[0] * 1099511628211) ^ (a[1] & 0xff) },
 	"fnv64a": func(a []uint64) uint64 { return (a[0] ^ (a[1] & 0xff)) * 1099511628211 },
+	"fnv64x8": func(a []uint64) uint64 {
+		h := a[0]
+		for k := 0; k < 8; k++ {
+			h = (h * 1099511628211) ^ ((a[1] >> (8 * uint(k))) & 0xff)
+		}
+		return h
+	},
+	"fnv64ax8": func(a []uint64) uint64 {
+		h := a[0]
+		for k := 0; k < 8; k++ {
+			h = (h ^ ((a[1] >> (8 * uint(k))) & 0xff)) * 1099511628211
+		}
+		return h
+	},
 }
 
 func mkUF(name string, w uint8, signed bool, args ...*Term) *Term {
